@@ -268,6 +268,11 @@ def m_ceil(ctx, args, kw):
         return NotImplemented
     if x.k == "int":
         return mk(z3.ToReal(x.t), "real")
+    t = x.t
+    if z3.is_app(t) and t.decl().kind() == z3.Z3_OP_DIV and t.num_args() == 2:
+        ia, ib = _int_of_real(t.arg(0)), _int_of_real(t.arg(1))
+        if ia is not None and ib is not None:
+            return mk(z3.ToReal(ops.ceil_div_witness(ctx, ia, ib)), "real")
     return mk(z3.ToReal(-z3.ToInt(-x.t)), "real")
 
 
@@ -584,8 +589,16 @@ class RangeV:
         self.lo, self.hi, self.step = lo, hi, step
 
 
+class EnumV:
+    def __init__(self, inner, start):
+        self.inner, self.start = inner, start
+
+
 def bi_enumerate(ctx, args, kw):
     start = args[1] if len(args) > 1 else kw.get("start", 0)
+    a0 = args[0]
+    if isinstance(a0, RangeV) or (isinstance(a0, Ref) and isinstance(ctx.cell(a0), HList) and ctx.cell(a0).items is None):
+        return EnumV(a0, start)
     return tuple((start + i, x) for i, x in enumerate(ctx.iterate(args[0])))
 
 
@@ -726,12 +739,10 @@ def bi_issubclass(ctx, args, kw):
 
 def install(world):
     I = world.intrinsics
-    for name, fn in [("isinstance", bi_isinstance), ("len", bi_len), ("int", bi_int), ("float", bi_float),
-                     ("bool", bi_bool), ("str", bi_str), ("repr", bi_repr), ("list", bi_list),
-                     ("tuple", bi_tuple), ("dict", bi_dict), ("set", bi_set), ("range", bi_range),
-                     ("enumerate", bi_enumerate), ("zip", bi_zip), ("sum", bi_sum), ("sorted", bi_sorted),
+    for name, fn in [("isinstance", bi_isinstance), ("len", bi_len), ("repr", bi_repr),
+                     ("sum", bi_sum), ("sorted", bi_sorted),
                      ("reversed", bi_reversed), ("any", bi_any), ("all", bi_all), ("getattr", bi_getattr),
-                     ("setattr", bi_setattr), ("hasattr", bi_hasattr), ("type", bi_type), ("print", bi_print),
+                     ("setattr", bi_setattr), ("hasattr", bi_hasattr), ("print", bi_print),
                      ("round", bi_round), ("id", bi_id), ("callable", bi_callable), ("iter", bi_iter),
                      ("issubclass", bi_issubclass)]:
         I[name] = SpecFn(name, fn)
@@ -1222,6 +1233,20 @@ def get_item(ctx, o, k):
                 ctx.raise_exc("KeyError", (key,))
             return c.d[key]
         if isinstance(c, HList):
+            if isinstance(k, Ref) and isinstance(ctx.cell(k), HList) and c.items is not None and ctx.cell(k).items is not None:
+                if not getattr(c, "is_array", False):
+                    ctx.raise_exc("TypeError", ("list indices must be integers or slices, not list",))
+                ids = ctx.cell(k).items
+                if any(isinstance(i, Sym) for i in ids):
+                    raise U()("fancy indexing with symbolic indices")
+                out = ctx.new_list([c.items[_norm_index(ctx, i, len(c.items))] for i in ids])
+                ctx.cell(out).is_array = True
+                return out
+            if isinstance(k, SliceV) and c.items is not None and k.st == -1 and k.lo is None and k.hi is None:
+                out = ctx.new_list(list(reversed(c.items)))
+                if getattr(c, "is_array", False):
+                    ctx.cell(out).is_array = True
+                return out
             if isinstance(k, SliceV):
                 if c.items is not None:
                     lo, hi = _slice_bounds(ctx, k, len(c.items))
@@ -1389,3 +1414,80 @@ def iterate(ctx, v):
         # Enum iteration
         return [a for a in v.attrs.values() if isinstance(a, EnumMember)]
     raise U()("iteration over %r" % (v,))
+
+
+@model(object.__new__)
+def m_object_new(ctx, args, kw):
+    cls = args[0]
+    if isinstance(cls, ClassVal):
+        return ctx.alloc(HObj(cls))
+    return NotImplemented
+
+
+# ---- models of numpy / itertools on lists with symbolic elements (concrete length) -----------------------
+# An ndarray of symbolic scalars is represented as an HList tagged `is_array`.  Only the handful of
+# operations the repository applies to such arrays is modelled; each model is an assumed contract.
+
+def _as_items(ctx, v):
+    if isinstance(v, Ref):
+        c = ctx.cell(v)
+        if isinstance(c, HList) and c.items is not None:
+            return c.items
+    if isinstance(v, tuple):
+        return list(v)
+    return None
+
+
+def _mk_array(ctx, items):
+    r = ctx.new_list(items)
+    ctx.cell(r).is_array = True
+    return r
+
+
+@model(np.array, np.asarray)
+def m_np_array(ctx, args, kw):
+    items = _as_items(ctx, args[0])
+    if items is None or not any_sym(ctx, items):
+        return NotImplemented
+    ctx.assumed.add("np.array(list of scalars): one-dimensional array with the same elements in the same order")
+    return _mk_array(ctx, list(items))
+
+
+@model(np.argsort)
+def m_argsort(ctx, args, kw):
+    items = _as_items(ctx, args[0])
+    if items is None or not any_sym(ctx, items):
+        return NotImplemented
+    ctx.assumed.add("np.argsort: returns the permutation that sorts its argument into non-decreasing order (modelled as a comparison sort on the symbolic values; which of several equal elements comes first is unspecified for the default quicksort and is chosen by the model as the stable order)")
+    order = []
+    for i, x in enumerate(items):
+        pos = len(order)
+        # insert i after every element that is <= x (stable insertion sort, forks on symbolic comparisons)
+        j = 0
+        while j < len(order) and ctx.truthy(ctx.compare(ast.LtE(), items[order[j]], x)):
+            j += 1
+        order.insert(j, i)
+    return _mk_array(ctx, order)
+
+
+@model(np.append)
+def m_np_append(ctx, args, kw):
+    a, b = _as_items(ctx, args[0]), _as_items(ctx, args[1])
+    if a is None or (not any_sym(ctx, a) and not any_sym(ctx, [args[1]])):
+        return NotImplemented
+    ctx.assumed.add("np.append(array, x): array followed by x")
+    return _mk_array(ctx, list(a) + (list(b) if b is not None else [args[1]]))
+
+
+import itertools as _it
+
+
+@model(_it.product)
+def m_product(ctx, args, kw):
+    lists = [_as_items(ctx, a) for a in args]
+    if any(l is None for l in lists):
+        return NotImplemented
+    if not any(any_sym(ctx, l) for l in lists):
+        return NotImplemented
+    ctx.assumed.add("itertools.product: tuples in lexicographic index order, last argument varying fastest")
+    return tuple(_it.product(*lists))
